@@ -41,6 +41,13 @@ def gen_cases(ctx):
                     cases.append({"kind": "catalogue", "inpkg": inpkg, "genseed": ctx.seed * 31 + inpkg, "idx": vidx[k:k + CHUNK], "template": "testify", "formatter": "goimports",
                                   "placement": "inpkg-test" if inpkg else "outpkg", "td": {} if u is None else {"unroll-variadic": u}, "gomod": "plain", "srckind": "ordinary",
                                   "drvseed": rng.randrange(1, 1 << 20), "td_level": "root"})
+        # all mocks of the package in ONE output file with unroll-variadic alternating true / false / unset per interface (true first):
+        # what one mock is rendered with must not stick to the mocks rendered after it
+        if vidx:
+            for k in range(0, len(vidx), CHUNK):
+                cases.append({"kind": "catalogue", "inpkg": inpkg, "genseed": ctx.seed * 31 + inpkg, "idx": vidx[k:k + CHUNK], "template": "testify", "formatter": "goimports",
+                              "placement": "inpkg-test" if inpkg else "outpkg", "td": {}, "gomod": "plain", "srckind": "ordinary", "drvseed": rng.randrange(1, 1 << 20),
+                              "onefile": True, "mixed_unroll": True})
         for ch in chunks:
             for rep in range(1 if ctx.tier == "quick" else 3):
                 u = [None, True, False][ci % 3]
@@ -87,6 +94,8 @@ def eval_case(ctx, case):
         case = dict(case, extra_cfg={"replace-type": {ma: {k: {"pkg-path": mb, "type-name": v} for k, v in case["replace"].items()}}})
     else:
         ifaces = c01.case_ifaces(case)
+    if case.get("mixed_unroll"):
+        case = dict(case, td_by_name={i["name"]: ({"unroll-variadic": True} if k % 3 == 0 else ({"unroll-variadic": False} if k % 3 == 1 else {})) for k, i in enumerate(ifaces)})
     root, info, usable, note = drvrun.prepare(ctx, case, ifaces, ctx.known)
     if root is None:
         return [(case, Verdict.skipped(note) if usable == [] else Verdict.inconclusive(note))]
@@ -98,7 +107,7 @@ def eval_case(ctx, case):
     rounds = 3 if ctx.tier == "quick" else 9
     r, findings, summary, races = drvrun.run_tests(root, info, "^TestDrvTestify$", {"DRV_SEED": str(case["drvseed"]), "DRV_ROUNDS": str(rounds)})
     td = case.get("td") or {}
-    tags = ["placement=" + case["placement"], "unroll=%s" % td.get("unroll-variadic", "unset")]
+    tags = ["placement=" + case["placement"], "unroll=%s" % ("mixed-per-interface-one-file" if case.get("mixed_unroll") else td.get("unroll-variadic", "unset"))]
     if r.timed_out:
         return [(case, Verdict.inconclusive("watchdog"))]
     if summary is None:
